@@ -5,10 +5,11 @@ each with output before the critical step.  The expected result is computed from
 and an explicit frame count of each recursion shape.  The call-depth limit itself is read from the generated
 constant (coq/theories/Gen/Generated.v) so that the boundary moves with the source; it must still be "a few
 thousand".  Cases that build arrays of 10^5..10^6 elements are run on the implementation only (extra())."""
-import os, re
+import os, re, subprocess, resource
 from framework import Check, Case
+import jqlib
 from jqlib import VERIF, simple_run, run_impl, RunRes
-from checklib import ANY, abnormal, run_cli, Scratch
+from checklib import ANY, abnormal, run_cli, Scratch, CliRes, pmap
 
 FILL = 1 << 20          # documented: an index beyond 1024*1024 is not auto-filled
 WIDTH = 65536           # documented: |width| > 65536 is refused
@@ -188,12 +189,108 @@ def pretty_num(v):
     return "null" if v is None else str(v)
 
 
+# ------------------------------------------------------------------ arrays CREATED by the assignment that indexes them
+# a.b[X] = 1 with a.b missing: the assignment creates a.b as an empty array and stores at X in the same step.  The fill limit
+# holds for that store as for any other: X beyond the limit is refused (runtime error, prior output kept), never allocated.
+# (statement with %s for the index, expression whose length is printed afterwards, host, input with @X for the index or None)
+NESTED_TARGETS = [
+    ("a.b[%s] = 1", "a.b", "BEGIN", None),
+    ("a = {}\n a.b[%s] = 1", "a.b", "BEGIN", None),
+    ("a = {b: {}}\n a.b.c[%s] = 1", "a.b.c", "BEGIN", None),
+    ("a.b.c[%s] = 1", "a.b.c", "BEGIN", None),
+    ("a.b.c.d[%s] = 1", "a.b.c.d", "BEGIN", None),
+    ("a['k'][%s] = 1", "a.k", "END", "[1]"),
+    ("a.b['c'][%s] = 2", "a.b.c", "BEGIN", None),
+    ("seen[0][%s] = 1", "seen[0]", "BEGIN", None),
+    ("seen[2][%s] = 1", "seen[2]", "BEGIN", None),
+    ("seen[1][1][%s] = 1", "seen[1][1]", "BEGIN", None),
+    ("seen.x[0][%s] = 1", "seen.x[0]", "BEGIN", None),
+    ("seen[0].x[%s] = 1", "seen[0].x", "BEGIN", None),
+    ("seen[$index][%s] = 1", "seen[0]", "rule", "[5]"),
+    ("seen[$index][$.id] = 1", "seen[0]", "rule", "[{\"id\": @X}]"),
+    ("seen[$.k][$.id] = 1", "seen.key", "rule", "{\"k\": \"key\", \"id\": @X}"),
+    ("$.new[%s] = 1", "$.new", "rule", "{\"id\": 1}"),
+    ("$.new[$.id] = 1", "$.new", "rule", "{\"id\": @X}"),
+    ("$.new.deeper[%s] = 1", "$.new.deeper", "rule", "{\"id\": 1}"),
+    ("$.a.b.c[%s] = 1", "$.a.b.c", "BEGINFILE", "{\"a\": {}}"),
+    ("$.new[0][%s] = 1", "$.new[0]", "BEGINFILE", "{\"id\": 1}"),
+    ("$[1].l[%s] = 1", "$[1].l", "BEGINFILE", "[1, {}]"),
+    ("a.b[%s] += 1", "a.b", "BEGIN", None),
+    ("a.b[%s]++", "a.b", "BEGIN", None),
+    ("y = ++a.b.c[%s]", "a.b.c", "BEGIN", None),
+    ("a.b[%s].k = 1", "a.b", "BEGIN", None),
+    ("a.b[%s][0] = 1", "a.b", "BEGIN", None),
+    ("a.b[0][%s] = 1", "a.b[0]", "BEGIN", None),
+    ("a.b[%s] = [1, 2]", "a.b", "BEGIN", None),
+    ("function f(p) { p.q[%s] = 1\n return p }\nfunction g() { r = f({})\n return r.q }", "g()", "func", None),
+    ("function f(p) { loc.al[%s] = 1\n return loc.al }", "f(1)", "func", None),
+    ("for (i = 0; i < 2; i++) { m[i].v[%s] = 1 }", "m[1].v", "BEGIN", None),
+    ("w = {}\n match (1) { q => { w.z[%s] = q } }", "w.z", "BEGIN", None),
+]
+NESTED_SMALL = [0, 1, 3, 1000, 0.5, 1.7, 2.9, -1, -2, -0.5, -1.5]
+NESTED_BIG = [FILL - 1, FILL, FILL + 0.5, FILL + 1, FILL + 2, FILL + 1.5, 2 * FILL, 2000000, 10 ** 7, 10 ** 8, 10 ** 9, 2 ** 31 - 1, 2 ** 31, 2 ** 32 + 1,
+              10 ** 10, 10 ** 10 + 0.5, 2 ** 40, 10 ** 12, 10 ** 15, 4 * 10 ** 15, 2 ** 53, 10 ** 18, 9.2e18, 2 ** 63, 10 ** 19, 1e300,
+              -10 ** 9, -10 ** 15, -2 ** 40, -10 ** 19, -1e300, -(FILL + 1)]
+MEM_CAP = 3 << 30       # address-space limit of one isolated run: an allocation sized by the index dies here, not on the machine
+
+
+def nested_text(x):
+    """(source text, JSON text) of an index"""
+    if isinstance(x, float) and abs(x) >= 1e21:
+        body = "(1 * %s)" % " * ".join(["1000000000"] * 34)
+        return ("(-%s)" % body if x < 0 else body), ("-1e306" if x < 0 else "1e306")
+    t = repr(x) if not (isinstance(x, float) and x == int(x)) else str(int(x))
+    return ("(-%s)" % t[1:] if x < 0 else t), t
+
+
+def nested_value(x):
+    if isinstance(x, float) and abs(x) >= 1e21:
+        return 1e306 if x > 0 else -1e306
+    return float(x)
+
+
+def nested_case(target, x):
+    """(program, input text or None, (outcome, stdout)) of one store into an array created by the same assignment"""
+    stmt, show, host, inp = target
+    st, jt = nested_text(x)
+    code = stmt % st if "%s" in stmt else stmt
+    res = index_store([], nested_value(x))
+    if host == "func":
+        prog = code + "\nBEGIN { print \"start\"\n print %s.length()\n print \"done\" }" % show
+    else:
+        head = {"BEGIN": "BEGIN ", "END": "END ", "rule": "", "BEGINFILE": "BEGINFILE "}[host]
+        prog = head + "{ print \"start\"\n %s\n print %s.length()\n print \"done\" }" % (code, show)
+    want = ("ok", "start\n%d\ndone\n" % len(res)) if res is not None else ("runtime", "start\n")
+    return prog, (inp.replace("@X", jt) if inp is not None else None), want
+
+
+def _cap_limits():
+    try:
+        resource.setrlimit(resource.RLIMIT_CORE, (0, 0))
+        resource.setrlimit(resource.RLIMIT_AS, (MEM_CAP, MEM_CAP))
+    except Exception:
+        pass
+
+
+def run_cli_capped(prog_path, stdin, timeout=60):
+    """the real binary in a process of its own under an address-space cap"""
+    try:
+        p = subprocess.run([jqlib.JQAWK, "-f", prog_path], input=stdin, stdout=subprocess.PIPE, stderr=subprocess.PIPE,
+                           timeout=timeout, preexec_fn=_cap_limits)
+        return CliRes(p.returncode, p.stdout, p.stderr, False)
+    except subprocess.TimeoutExpired as e:
+        return CliRes(None, e.stdout or b"", e.stderr or b"", True)
+
+
 class C20(Check):
     pid = "C20"
     props = ["C20_limits.v", "C20_width.v"]
     rule = ("boundary programs: recursion depth within +-2 of the call-depth limit for 8 recursion shapes (direct, accumulator, mutual 2/3, through "
             "match expression/block, through a loop body, through a method argument) x 7 ways of entering (rule kinds, helper frames, match "
-            "frames), 15 runaway recursions; array index stores/reads at 2^20-1..2^20+2, negative, fractional, huge; printf widths "
+            "frames), 15 runaway recursions; array index stores/reads at 2^20-1..2^20+2, negative, fractional, huge; the same indexes stored "
+            "into an array that the assignment itself creates under 1-3 missing members (a.b[x], a.b.c.d[x], seen[i][x], $.new[x], "
+            "the index taken from the input, += / ++ / nested stores, in functions / loops / match bodies; 32 targets), the huge "
+            "ones through the jqawk binary in one memory-capped process each; printf widths "
             "65535..65537, 20 digits, negative, zero-padded; JSON input nested 9999..10002 deep (arrays, objects, mixed); the documented "
             "'works' cases (1000-deep recursion, width 5000, 100000-element array). Output is printed before every critical step. "
             "non-trivial = within +-2 of a limit, or beyond it")
@@ -381,6 +478,13 @@ class C20(Check):
                         want = ("json", "value\n" if before else "")
                     small.append((progn, [text], True, want, {"limit": "json nesting", "depth": d, "kind": kind, "value_before": bool(before),
                                                               "input": "(%d bytes)" % len(text)}, abs(d - NEST) <= 2 or d > NEST))
+        # arrays created by the assignment that indexes them (a.b[x] = 1 with a.b missing), small indexes: model and implementation
+        for target in NESTED_TARGETS:
+            for x in (NESTED_SMALL if not quick else rng.sample(NESTED_SMALL, 3)):
+                prog, inp, want = nested_case(target, x)
+                small.append((prog, [inp] if inp is not None else [], True, want,
+                              {"limit": "array fill", "index": repr(x), "op": target[0].replace("%s", nested_text(x)[0]) + " (the array is created by this assignment)"},
+                              want[0] == "runtime"))
         return small, big
 
     def generate(self, rng, tier):
@@ -401,6 +505,22 @@ class C20(Check):
             c = Case(cid, None, meta, nontrivial, ("big",))
             self._big.append((c, simple_run(cid, prog, inputs, [], fuzz)))
             cases.append(c)
+        # stores at huge / negative / fractional indexes into arrays created by the same assignment: the real binary, one capped
+        # process per case (an allocation sized by the index must die alone)
+        self._nested = []
+        k = 0
+        for target in NESTED_TARGETS:
+            xs = NESTED_BIG
+            if tier == "quick":
+                xs = [FILL + 1, 10 ** 9, 10 ** 15] + rng.sample(NESTED_BIG, 4)
+            for x in xs:
+                prog, inp, want = nested_case(target, x)
+                cid = "n%d" % k
+                k += 1
+                c = Case(cid, None, {"limit": "array fill", "index": repr(x), "op": target[0].replace("%s", nested_text(x)[0]) + " (the array is created by this assignment)", "prog": prog,
+                                     "input": inp, "want": list(want), "how": "jqawk binary, RLIMIT_AS %d MiB" % (MEM_CAP >> 20)}, True, ("nested-cli",))
+                self._nested.append((c, prog, inp, want))
+                cases.append(c)
         return cases
 
     def oracle(self, case, impl):
@@ -436,6 +556,24 @@ class C20(Check):
             if why:
                 viol.append((Case(c.id, line if len(line) < 100000 else None, c.meta, True, c.tags), why))
         stats["impl_only_cases"] = len(big)
+        # arrays created by the assignment that indexes them, huge indexes: capped processes of the real binary
+        nested = getattr(self, "_nested", [])
+        if nested:
+            with Scratch() as sc:
+                jobs = [(c, sc.file(prog), (inp or "").encode(), want) for c, prog, inp, want in nested]
+                results = pmap(lambda j: run_cli_capped(j[1], j[2]), jobs, jobs=8)
+                for (c, path, stdin, want), res in zip(jobs, results):
+                    if res.timed_out:
+                        continue
+                    why = res.why_bad()
+                    exp = (0 if want[0] == "ok" else 1, want[1].encode())
+                    if not why and (res.rc, res.out) != exp:
+                        why = "documented exit status %d and stdout %r, got %d and %r" % (exp[0], exp[1][:60], res.rc, res.out[:60])
+                    if why:
+                        meta = dict(c.meta, exit_status=res.rc, stdout=res.out[:200].decode("utf-8", "replace"), stderr=res.err[:400].decode("utf-8", "replace"))
+                        viol.append((Case(c.id, None, meta, True, c.tags), "array fill limit, store into an array the assignment creates (%s, index %s): %s"
+                                     % (c.meta["op"].split(" (")[0].replace("\n", "; "), c.meta["index"], why)))
+            stats["nested_creation_cli_runs"] = len(nested)
         # through the binary: the limits end in exit status 1 and a diagnostic, never a trace
         probes = [
             ("function f(n) { return f(n + 1) }\nBEGIN { print \"start\"\n f(0) }", b"", 1, b"start\n"),
